@@ -839,6 +839,55 @@ def apply_edits(q, edits):
             q.rows[idx] = (lhs, co, Fraction(v))
         elif kind == "sense":
             q.maxi = not q.maxi
+        elif kind == "rmcol":
+            # removeCol: the last column moves into the hole
+            last = len(q.cols) - 1
+            q.cols[idx] = q.cols[last]
+            q.cols.pop()
+            for r_ in range(len(q.rows)):
+                lhs, co, rhs = q.rows[r_]
+                co = dict(co)
+                co.pop(idx, None)
+                if last != idx and last in co:
+                    co[idx] = co.pop(last)
+                q.rows[r_] = (lhs, co, rhs)
+        elif kind == "qbind":
+            pass
+
+
+def gen_cache_histories(r):
+    """exact solve with forced basic solutions, then an edit that leaves the optimal basis optimal (a non-binding bound relaxed,
+    the objective scaled, a NON-LAST column removed - the last column then takes its number), optionally a query of the rational
+    basis inverse, and a second exact solve that needs no pivot: the rational factorization cached between the two solves
+    must be the one of the basis in the order the solve expects, or be recomputed.  One history per removable column."""
+    p = gen_hist_lp(r, r.randint(2, 4))
+    opts = dict(H_DEFAULT, eqtrans=0, forcebasic=1)
+    if r.random() < 0.5:
+        opts["ratrec"] = 0
+    if r.random() < 0.4:
+        opts["simplifier"] = 0
+    out = []
+    variants = [("rmcol", j) for j in range(p.n - 1)] + [("relax", None)]
+    for (kind, j) in variants:
+        steps = [{"set": dict(opts), "edits": [], "real": False}]
+        q = lpgen.LP(p.maxi, p.offset, list(p.cols), [(l, dict(c), h) for (l, c, h) in p.rows], p.family)
+        eds = []
+        if kind == "rmcol":
+            eds.append(("rmcol", j, 0))
+        elif r.random() < 0.5:
+            jj = r.randrange(q.n)
+            o, lo, up = q.cols[jj]
+            eds.append(("up", jj, up + Fraction(1, 7)) if up is not None else ("obj", jj, o * Fraction(r.randint(4, 9), 3)))
+        else:
+            eds += [("obj", jj, q.cols[jj][0] * 2) for jj in range(q.n)]
+        if r.random() < 0.8:
+            eds.append(("qbind", 0, 0))
+        apply_edits(q, eds)
+        steps.append({"set": dict(opts), "edits": eds, "real": False})
+        if r.random() < 0.3:
+            steps.append({"set": dict(opts), "edits": [("qbind", 0, 0)], "real": False})
+        out.append((p, {"sync": "auto", "steps": steps, "tag": "cache"}))
+    return out
 
 
 def hist_line(tag, spec):
@@ -1076,6 +1125,8 @@ def main():
                                                 {"set": dict(H_DEFAULT, eqtrans=1), "edits": [("obj", 0, Fraction(2, 7))], "real": False}]}))
     for _ in range(14 if quick else 200):
         items.append(gen_tiny_cost_history(r))
+    for _ in range(24 if quick else 400):
+        items += gen_cache_histories(r)
     run_histories(ck, exe, cert, model, items)
     kernel_from_answers(ck, exe, model, ck.opt_answers, 60 if quick else 600)
     ck.cov["rule"] = ("(i) kernel cases: an LP with rational data (fractions 1/3, 1/10, ..., zero bounds, all range types) + rational vectors x, s, y, d (on/off bounds, "
